@@ -23,14 +23,16 @@ def run(prop, tier):
     if not res.ok:
         raise Machinery("MC_HFInterp / HFInterp: an ASSUME or invariant of the specification fails:\n" + res.tail[-3000:])
     lines = open(res.cases_path).read().splitlines()
-    ainv = None
+    from common import frac
+    ainv = {}
     cases = []
     for ln in lines:
         if ln.startswith('{"ainv"'):
-            ainv = json.loads(ln)["ainv"]
+            d = json.loads(ln)
+            ainv[str(frac(d["a0"]))] = d["ainv"]
         else:
             cases.append(ln)
-    if ainv is None or not cases:
+    if len(ainv) != 3 or not cases:
         raise Machinery("MC_HFInterp printed no cases / no AInv")
     rnd = random.Random(sd)
     rnd.shuffle(cases)
